@@ -70,6 +70,10 @@ type S struct {
 	finished  chan struct{}
 	nextObj   int
 	objIDs    map[any]int
+	// pinned keeps every object whose address is used as an identity (closed
+	// channels, operation objects) reachable until the execution ends, so that
+	// the garbage collector cannot hand the same address to another object.
+	pinned []any
 	Trace     []string
 	KeepTrace bool
 }
@@ -176,6 +180,7 @@ func (s *S) objID(o any) int {
 	if id, ok := s.objIDs[k]; ok {
 		return id
 	}
+	s.pinned = append(s.pinned, o)
 	s.nextObj++
 	s.objIDs[k] = s.nextObj
 	return s.nextObj
@@ -366,6 +371,7 @@ func Close[T any](c chan T) {
 	}
 	s.Point(&Op{Kind: "close", Obj: c})
 	s.closed[chanPtr(c)] = true
+	s.pinned = append(s.pinned, c)
 	close(c)
 	s.chanEpoch++
 }
